@@ -392,6 +392,10 @@ class Interp:
         if isinstance(env.get(base), _HeapAlias):
             base = env[base].key
         if not proj:
+            if isinstance(v, BV) and isinstance(base, int) and base < len(fn.locals):
+                w = ty_width(fn.local_ty(base))
+                if w and w != v.w:
+                    v = v.resize(w)
             env[base] = v
             return
         cur = env.get(base)
@@ -677,6 +681,14 @@ class Interp:
             res = ()
         elif re.search(r"convert::(From|Into)<.*>>::(from|into)$", name) and isinstance(args[0], BV) and ty_width(dest_ty):
             res = args[0].resize(ty_width(dest_ty), False)
+        elif re.search(r"Result::<T, E>::map_err$", name):
+            res = args[0]
+        elif name.endswith("Try>::branch") or name.endswith("Try::branch"):
+            inner = args[0]
+            nm = inner.get("#name", "?") if isinstance(inner, Struct) else "?"
+            res = Struct()
+            res["#name"] = "ok:" + nm
+            path.events.append(("try", nm, line))
         elif name.endswith("::clone") and len(args) == 1:
             res = deref(args[0])
         else:
